@@ -1,11 +1,12 @@
 #![no_main]
-//! bytes -> choice stream -> registration sequence -> real builder -> shape hook + identification
-//! -> the layout oracles. VERIF_PROP selects the property whose oracle may abort the target.
+//! bytes -> choice stream -> generated case (registration sequence / history) -> real code ->
+//! the same oracles as the proptest-driven checks. VERIF_PROP selects the property whose
+//! single-threaded sub-checks may abort the target.
 use libfuzzer_sys::fuzz_target;
 use std::sync::Once;
 
-use vcheck::driver::{DynProp, Known, Stats};
-use vcheck::registry::subs_for;
+use vcheck::driver::Known;
+use vcheck::registry::{fuzzable, subs_for};
 
 static INIT: Once = Once::new();
 
@@ -23,10 +24,12 @@ fuzz_target!(|data: &[u8]| {
     let prop = std::env::var("VERIF_PROP").unwrap_or_else(|_| "C10".into());
     let s = stream(data);
     for sub in subs_for(&prop) {
+        if !fuzzable(sub.p.dname()) {
+            continue;
+        }
         if let Some(msg) = sub.p.dfuzz_one(&s, Known::load_cached()) {
             eprintln!("VIOLATION property={} check={} : {}", prop, sub.p.dname(), msg);
             std::process::abort();
         }
     }
-    let _ = Stats::default();
 });
